@@ -30,6 +30,8 @@ class DatasetV:
         return len(self.elems) > 0
 
     def sym_contains(self, I, item):
+        if isinstance(item, tuple) and item and item[0] == "tag":
+            item = item[1]
         return any(k == item for k, _ in self.elems)
 
     def sym_iter(self, I):
@@ -42,6 +44,20 @@ class DatasetV:
         if name[:1].isupper():
             raise PyRaise(ExcVal("AttributeError", (f"Dataset has no element {name}",)))
         return NotImplemented
+
+    def sym_setattr(self, I, name, val):
+        self.elems = [(k, v) for k, v in self.elems if k != name] + [(name, val)]
+
+    def sym_delattr(self, I, name):
+        if not any(k == name for k, _ in self.elems):
+            raise PyRaise(ExcVal("AttributeError", (name,)))
+        self.elems = [(k, v) for k, v in self.elems if k != name]
+
+    def sym_delitem(self, I, key):
+        kw = key[1] if isinstance(key, tuple) and key and key[0] == "tag" else key
+        if not any(k == kw for k, _ in self.elems):
+            raise PyRaise(ExcVal("KeyError", (key,)))
+        self.elems = [(k, v) for k, v in self.elems if k != kw]
 
     def __repr__(self):
         return f"DatasetV({self.elems!r})"
